@@ -136,6 +136,50 @@ def judge_encoding(ctx, U, vocab_idx, list_idx, scores):
         ctx.violate("oov_irrelevant", "oov_irrelevant:prediction", spec=spec)
 
 
+def judge_encoder_isolation(ctx, seed):
+    """Two callers with EQUAL vocabularies made of their own objects (one deep-copied / re-loaded the other's list).
+    The first caller later edits its own tags in place (renames a class); the second caller's encoder -- created from
+    its own, untouched vocabulary -- still decodes / encodes that vocabulary."""
+    import random
+
+    from soundevent import data
+    from soundevent.evaluation import encoding as E
+
+    rng = random.Random(seed)
+    terms = [data.Term(name=f"iso:{k}", label=f"K{k}", definition="d") for k in range(2)]
+    n = rng.randint(1, 4)
+    mk = lambda: [data.Tag(term=terms[k % 2], value=f"v{seed % 97}_{k}") for k in range(n)]
+    how = rng.choice(["deepcopy", "rebuilt", "pickle"])
+    vocab_a = mk()
+    vocab_b = copy.deepcopy(vocab_a) if how == "deepcopy" else mk() if how == "rebuilt" else _pickled(vocab_a)
+    snapshot = [(t.term.name, t.value) for t in vocab_b]
+    spec = {"kind": "encoder_isolation", "seed": seed, "how": how, "n": n}
+    ctx.mon("encoder_isolation")
+    try:
+        enc_a = E.create_tag_encoder(vocab_a)
+        enc_a.encode(vocab_a[0])
+        enc_b = E.create_tag_encoder(vocab_b)
+        j = rng.randrange(n)
+        try:
+            vocab_a[j].value = "renamed-by-the-other-caller"
+        except Exception:
+            ctx.note("tags_immutable")
+            return
+        for i in range(n):
+            d = enc_b.decode(i)
+            got = None if d is None else (d.term.name, d.value)
+            if got != snapshot[i]:
+                ctx.violate("decode_encode_identity", "decode_encode_identity:other_callers_equal_vocabulary_edited", observed=got, expected=snapshot[i], spec=spec)
+                return
+            if enc_b.encode(vocab_b[i]) != i or enc_b.encode(data.Tag(term=terms[i % 2], value=snapshot[i][1])) != i:
+                ctx.violate("encode_iff_equal", "encode_iff_equal:other_callers_equal_vocabulary_edited", observed=enc_b.encode(vocab_b[i]), expected=i, spec=spec)
+                return
+        if enc_b.encode(vocab_a[j]) is not None and vocab_a[j] not in vocab_b:
+            ctx.violate("encode_iff_equal", "encode_iff_equal:renamed_tag_still_encoded", observed=enc_b.encode(vocab_a[j]), expected=None, spec=spec)
+    except Exception as e:
+        ctx.violate_exc("raises", f"raises:encoder_isolation:{type(e).__name__}", e, spec=spec)
+
+
 # ------------------------------------------------------------------ hashing
 def _rebuild(obj):
     """Equal object built through another construction path: the constructor, recursively,
@@ -405,6 +449,10 @@ def judge_hash(ctx, cls, how, a, b):
 
 def run(ctx):
     rng = ctx.rng
+    from rv.props import concurrent_jobs
+
+    concurrent_jobs.run_some(ctx, "C19")        # the same calls from a thread pool (rv/core/threads.py)
+    ctx.must_monitors.append("concurrent_calls")
     ctx.rule = ("encoding: (ordered vocabulary of distinct tags, tag list with repeats / out-of-vocabulary members); hashing: pairs of data objects built through different paths; "
                 "non-trivial = list contains a repeat or an out-of-vocabulary tag; distinct = distinct case spec")
     ctx.assumptions += ["vocabulary tags pairwise distinct; repeated predicted tags carry the same score (otherwise 'the score' is ambiguous)", "float32 scores compared at 1e-6"]
@@ -452,6 +500,10 @@ def run(ctx):
             if enc.encode(probe) != 1 or _E.classification_encoding([probe], enc) != 1 or list(_E.multilabel_encoding([probe], enc)) != [0, 1]:
                 ctx.violate("encode_iff_equal", f"encode_iff_equal:equal_tag_built_differently:{variant}", observed=enc.encode(probe), expected=1, spec={"kind": "encode_equal_tag", "variant": variant})
 
+    for _ in range(ctx.scale(60, 400)):
+        iseed = rng.getrandbits(32)
+        ctx.case(("encoder_isolation",), {"kind": "encoder_isolation", "seed": iseed})
+        judge_encoder_isolation(ctx, iseed)
     if ctx.shard == 0:
         for cseed in (7, 8):
             for cls, how, a, b in cross_process_pairs(ctx, cseed):
@@ -468,7 +520,9 @@ def run(ctx):
 def replay(ctx, w):
     s = w["spec"]
     ctx.case("replay", s)
-    if s["kind"] == "encode":
+    if s["kind"] == "encoder_isolation":
+        judge_encoder_isolation(ctx, s["seed"])
+    elif s["kind"] == "encode":
         judge_encoding(ctx, universe(), s["vocab"], s["tags"], s["scores"])
     else:
         for i in range(50):
